@@ -551,6 +551,15 @@ def plan(tier):
             for o in ({'depth': '8', 'timeline': '1'}, {'depth': '8', 'timeline': '1', 'patch': '1'},
                       {'depth': '16', 'timeline': '1', 'patch': '1'}, {'depth': '8', 'timeline': '1', 'patch': '1', 'mup': '2'}):
                 items.append(('plain', stream, template, 'live', o, CLOCKS[:1], tier))
+    # encrypted media together with in-band events (emsg boxes in front of the moof that the saio offset counts from)
+    for template in ('hand_made', 'manifest_n'):
+        for mode in ('vod', 'live'):
+            for o in ({'drm': 'all', 'events': 'ping'}, {'drm': 'playready', 'events': 'scte35', 'timeline': '1'},
+                      {'drm': 'clearkey', 'events': 'ping,scte35', 'ping__interval': '150'}):
+                oo = dict(o)
+                if mode == 'live':
+                    oo['depth'] = '30'      # (bbb has a text track with 10 s segments: see the window findings)
+                items.append(('plain', 'bbb', template, mode, oo, CLOCKS[:1], tier))
     # the kinds of stored media: every synthetic stream (irregular durations, non-zero first decode time, no tfdt, fragment
     # numbers from 7, default durations from tfhd/trex, track ids 3/5 with padding boxes, 8/16-byte IVs in either order,
     # sub-samples, two key ids, audio under its own key)
